@@ -173,6 +173,14 @@ func cmdC14Child(args []string) {
 					}
 					fmt.Fprintf(out, "!propfail\tC14\tafter the Extend calls DetectReader and Detect disagree: Detect=%s DetectReader=%s err=%v input=%s limit=%d history=%s\n", chain, got, err, hx(x), l, args[0])
 				}
+				if mt, params, perr := mime.ParseMediaType(m.String()); perr != nil {
+					fmt.Fprintf(out, "!propfail\tC02\tresult %q is not accepted by mime.ParseMediaType after Extend calls (%v); input=%s history=%s\n", m.String(), perr, hx(x), args[0])
+				} else if len(params) > 0 {
+					_, onlyCharset := params["charset"]
+					if len(params) != 1 || !onlyCharset || !(mt == "text/plain" || mt == "text/html" || mt == "text/xml") {
+						fmt.Fprintf(out, "!propfail\tC02\tresult %q carries a parameter although it is not one of text/plain, text/html, text/xml (or a parameter other than charset); input=%s history=%s\n", m.String(), hx(x), args[0])
+					}
+				}
 				for p := m; p != nil; p = p.Parent() {
 					if p != m && strings.Contains(p.String(), ";") {
 						fmt.Fprintf(out, "!propfail\tC02\tan ancestor in the Parent() chain carries a parameter after Extend calls: %q in chain of %q; input=%s history=%s\n", p.String(), m.String(), hx(x), args[0])
@@ -333,6 +341,41 @@ func runC14(c *runCtx) {
 			if !strings.HasPrefix(par, "@") { // registered on a copy: not a node of the tree, cannot be a parent later
 				extNames = append(extNames, name)
 			}
+		}
+		if h%8 == 6 {
+			// one name registered at two places of the tree, each registration followed by a child under that name
+			// (Lookup finds the one that comes first in the tree order), every link accepting its parent's probe: the
+			// two same-named nodes keep their own parents and ancestors, whichever is detected first
+			pairs := [][2]int{{5, 11}, {11, 5}, {4, 5}, {5, 4}, {2, 11}, {9, 5}}
+			pr := pairs[(h/8)%len(pairs)]
+			pa := []string{"", "", "", "", "application/pdf", "application/zip", "", "", "", "text/html", "", "application/x-ole-storage"}
+			px := []int{0, 0, 2, 0, 4, 5, 0, 0, 0, 8, 0, 11} // index into probeBase reaching that parent
+			if pr[0] == 2 {
+				pa[2] = "application/json"
+			}
+			nm := fmt.Sprintf("application/x-verif-twin-%d", h)
+			al := predSpec{"always", nil, 0}
+			ops = []c14op{
+				{pa[pr[0]], nm, ".t1", nil, al},
+				{nm, nm + "-child-a", ".ca", nil, al},
+				{pa[pr[1]], nm, ".t2", []string{nm + "-alias"}, al},
+				{nm, nm + "-child-b", ".cb", nil, al},
+			}
+			// detection order matters for anything remembered between detections: both orders
+			probes = [][]byte{probeBase[px[pr[0]]], probeBase[px[pr[1]]], probeBase[px[pr[0]]], probeBase[1], probeBase[px[pr[1]]]}
+			nops = len(ops)
+		}
+		if h%8 == 2 {
+			// extensions carrying one of the three charset-carrying names as an alias, below a charset-carrying node and
+			// at the root: the result has the extension's own name and no parameter
+			doc := []byte("<html><head><meta charset=\"iso-8859-2\"/></head><body>x</body></html>")
+			xml := []byte("<?xml version=\"1.0\" encoding=\"windows-1250\"?><schema/>")
+			ops = append(ops,
+				c14op{"text/html", fmt.Sprintf("application/x-verif-xhtml-%d", h), ".xh", []string{"text/html"}, predSpec{"prefix", []byte("<html><head><meta"), 0}},
+				c14op{"text/xml", fmt.Sprintf("application/x-verif-xsd-%d", h), ".xs", []string{"text/xml"}, predSpec{"prefix", []byte("<?xml version=\"1.0\" enc"), 0}},
+				c14op{"", fmt.Sprintf("application/x-verif-log-%d", h), ".lg", []string{"text/plain"}, predSpec{"prefix", []byte("LOG "), 0}})
+			probes = append(probes, doc, xml, []byte("LOG plain ascii text"))
+			nops = len(ops)
 		}
 		encs := make([]string, len(ops))
 		for i, o := range ops {
